@@ -51,3 +51,25 @@ Qed.
 Lemma is_simpler_than_pinned_refuted :
   simpler (1, 2) (5, 3) = true /\ is_simpler_than_pinned (1, 2) (5, 3) = false.
 Proof. split; reflexivity. Qed.
+
+(** the documented order is a strict total order (on all pairs, canonical or not) *)
+Theorem simpler_strict_total_order :
+  (forall x, simpler x x = false) /\
+  (forall x y, simpler x y = true -> simpler y x = false) /\
+  (forall x y z, simpler x y = true -> simpler y z = true -> simpler x z = true) /\
+  (forall x y, x <> y -> simpler x y = true \/ simpler y x = true).
+Proof. exact (conj simpler_irrefl (conj simpler_asym (conj simpler_trans simpler_total))). Qed.
+
+(** the three documented keys, in their order *)
+Theorem simpler_keys : forall x y, simpler x y = true <->
+  snd x < snd y \/ (snd x = snd y /\ (Z.abs (fst x) < Z.abs (fst y) \/ (Z.abs (fst x) = Z.abs (fst y) /\ fst y < 0 < fst x))).
+Proof.
+  intros [xn xd] [yn yd]. unfold simpler. cbn [fst snd].
+  destruct (Z.compare_spec xd yd); [|split; [intros _; lia|reflexivity]|split; [discriminate|lia]].
+  destruct (Z.compare_spec (Z.abs xn) (Z.abs yn)); [|split; [intros _; lia|reflexivity]|split; [discriminate|lia]].
+  destruct (Z.ltb_spec 0 xn), (Z.ltb_spec yn 0); cbn [andb]; split; try discriminate; try lia; reflexivity.
+Qed.
+
+Example simpler_examples :
+  simpler (1, 2) (5, 3) = true /\ simpler (1, 3) (2, 3) = true /\ simpler (1, 2) (-1, 2) = true /\ simpler (-1, 2) (1, 2) = false.
+Proof. repeat split. Qed.
